@@ -208,10 +208,19 @@ pub fn blockwatch(
 
 /// Runs git hermetically in `cwd`; returns (exit code, stdout, stderr).
 pub fn git(cwd: &Path, args: &[&str]) -> (i32, String, String) {
+    git_cfg(cwd, args, false)
+}
+
+/// `default_quotepath`: leave `core.quotePath` at git's default (on), so that paths with
+/// non-ASCII bytes are printed quoted with octal escapes, as a user's `git diff` prints them.
+pub fn git_cfg(cwd: &Path, args: &[&str], default_quotepath: bool) -> (i32, String, String) {
     let mut cmd = Command::new(tool("git"));
     hermetic(&mut cmd);
     cmd.env("GIT_AUTHOR_NAME", "v").env("GIT_AUTHOR_EMAIL", "v@v").env("GIT_COMMITTER_NAME", "v").env("GIT_COMMITTER_EMAIL", "v@v");
-    cmd.args(["-c", "core.quotepath=off", "-c", "diff.noprefix=false", "-c", "diff.mnemonicprefix=false", "-c", "core.autocrlf=false"]);
+    if !default_quotepath {
+        cmd.args(["-c", "core.quotepath=off"]);
+    }
+    cmd.args(["-c", "diff.noprefix=false", "-c", "diff.mnemonicprefix=false", "-c", "core.autocrlf=false"]);
     cmd.arg("-C").arg(cwd);
     cmd.args(args);
     cmd.stdin(Stdio::null());
@@ -251,11 +260,16 @@ impl TreePair {
     }
     /// The unified diff old→new with `context` lines of context. `extra` are further git options.
     pub fn diff(&self, context: usize, extra: &[&str]) -> Result<String, String> {
+        self.diff_cfg(context, extra, false)
+    }
+
+    /// As `diff`, optionally with git's default path quoting (see `git_cfg`).
+    pub fn diff_cfg(&self, context: usize, extra: &[&str], default_quotepath: bool) -> Result<String, String> {
         let u = format!("-U{context}");
         let mut args = vec!["diff", "--no-index", "--no-prefix", "--no-color", "--no-ext-diff", u.as_str()];
         args.extend_from_slice(extra);
         args.extend_from_slice(&["a", "b"]);
-        let (code, stdout, stderr) = git(&self.scratch.dir, &args);
+        let (code, stdout, stderr) = git_cfg(&self.scratch.dir, &args, default_quotepath);
         if code == 0 || code == 1 {
             Ok(fix_git_header(&stdout))
         } else {
